@@ -83,10 +83,11 @@ Definition undel (e : N * krow) : N * krow := (fst e, mkKrow (kr_want (snd e)) (
 Definition parse_over (cur : N) (s : list N) : N := fst (unmarshal_text cur s).
 Definition p2p_mask (m : N) : N := N.lor (N.land m ModeCP2P) mA.
 
-(* t.accessFor(level): selectAccessMode(level, anon, auth, getDefaultAccess(cat, true, false)); None = panic *)
+(* t.accessFor(level): selectAccessMode(level, anon, auth, getDefaultAccess(cat, true, false)); None = panic
+   (getDefaultAccess panics on a category it does not know; since the repair f52b053 'sys' is known) *)
 Definition access_for (cat : kcat) (auth : N) (root : bool) : option N :=
   match cat with
-  | CSys => None                                   (* getDefaultAccess panics on TopicCatSys *)
+  | CSys => Some (if root then ModeCSys else auth)
   | CP2P => Some (if root then ModeCP2P else auth)
   | CFnd => Some (if root then 0 else auth)
   | CMe => Some (if root then ModeCSelf else auth)
